@@ -5,9 +5,9 @@ use cgmath::{Matrix2, Matrix3, Matrix4, Point1, Point2, Point3, Quaternion, Vect
 use num_traits::NumCast;
 use serde_json::json;
 
-use crate::fw::{Clause, Extra, RunCfg};
-use crate::gen::{Rng, Tier};
-use crate::props::c17::Bits;
+use cgv_core::fw::{Clause, Extra, RunCfg};
+use cgv_core::gen::{Rng, Tier};
+use cgv_core::bits::Bits;
 
 pub trait Sc: NumCast + Copy + std::fmt::Debug + Bits + PartialEq + 'static {
     const NAME: &'static str;
@@ -200,7 +200,7 @@ pub fn native(cfg: &RunCfg, extra: &mut Extra) {
     let mut rec = Rec { checks: 0, none_expected: 0, some_expected: 0, fail: None, pairs: Default::default() };
     for i in 0..rounds {
         let mut rng = Rng::for_case(cfg.seed, "c19_native", i);
-        let r = crate::fw::catch(|| {
+        let r = cgv_core::fw::catch(|| {
             let (rec, rng) = (&mut rec, &mut rng);
             all_targets!(rec, rng, u8);
             all_targets!(rec, rng, u16);
